@@ -54,7 +54,7 @@ func init() {
 				Rule: "every uploadAction built by the sequencer is appended to the slice serialised by marshalStagedUploads, and the only direct Backend.Upload calls of the sequencer are the staging bundle and the checkpoint",
 				Run:  c04j},
 			{ID: "C04.l", Title: "S3-PUT", Template: "T6+T2", MinInst: 1,
-				Rule: "the S3 backend's PutObject carries the configured bucket, keyPrefix + key, the data given and its length, and Content-Encoding gzip exactly on the opts.Compressed edge", Run: c04l},
+				Rule: "the S3 backend's PutObject carries the configured bucket, keyPrefix + key, the data given and its length, and Content-Encoding gzip exactly on the opts.Compressed edge; the error that gates Upload's nil return is defined only by PutObject results (directly or through the hedge goroutine's channel)", Run: func(c *Ctx) { c04l(c); c04lOutcome(c) }},
 			{ID: "C04.g", Title: "CONSTANTS", Template: "T5", MinInst: 1,
 				Rule: "TileHeight = 8 = torchwood.TileHeight, TileWidth = 1 << TileHeight", Run: c04g},
 		},
@@ -1508,4 +1508,125 @@ func c04l(c *Ctx) {
 			c.add(Result{Instance: inst, Verdict: Discharged, Evals: 5, Sites: []string{f.Pos(cl)}, Detail: "Bucket/Key/Body/ContentLength are the configured bucket, prefix+key, data, len(data); Content-Encoding gzip iff opts.Compressed", Witnesses: f.WitEdges(optEdge("Compressed"))})
 		}
 	}
+}
+
+// c04lOutcome: S3Backend.Upload reports success only when one of its PutObject
+// requests did: the error that gates the nil return is defined only by the
+// result of the PutObject closure, directly or received from the channel the
+// hedge goroutine sends its own PutObject result on.
+func c04lOutcome(c *Ctx) {
+	f := c.Fn("ctlog.(*S3Backend).Upload")
+	if f == nil {
+		return
+	}
+	info := f.Info()
+	inst := f.Name + " success means a PUT succeeded"
+	okRets := successReturns(f)
+	if len(okRets) == 0 {
+		c.Unk(inst, "no successful return")
+		return
+	}
+	// the closure that issues the request
+	var put types.Object
+	for _, lf := range allLits(f) {
+		if len(lf.Calls(Callee{"github.com/aws/aws-sdk-go-v2/service/s3", "Client", "PutObject"})) > 0 {
+			// the variable the literal is assigned to
+			ast.Inspect(f.Body, func(n ast.Node) bool {
+				if as, ok := n.(*ast.AssignStmt); ok && len(as.Lhs) == 1 && len(as.Rhs) == 1 && ast.Unparen(as.Rhs[0]) == ast.Expr(lf.Lit) {
+					put = objOf(info, as.Lhs[0])
+				}
+				return true
+			})
+		}
+	}
+	if put == nil {
+		c.Unk(inst, "the closure issuing PutObject was not found")
+		return
+	}
+	isPutCall := func(e ast.Expr) bool {
+		call, ok := ast.Unparen(e).(*ast.CallExpr)
+		return ok && objOf(info, call.Fun) == put
+	}
+	// the error variable tested before the successful return
+	g := f.Graph()
+	var errObj types.Object
+	for _, e := range g.CondEdges() {
+		for _, a := range EdgeFacts(e) {
+			if eq, ok := isNilCmp(info, a.E, func(x ast.Expr) bool { o := objOf(info, x); return o != nil && isErrorType(o.Type()) }); ok && eq == a.Val {
+				if be, isB := ast.Unparen(a.E).(*ast.BinaryExpr); isB {
+					for _, side := range []ast.Expr{be.X, be.Y} {
+						if o := objOf(info, side); o != nil && isErrorType(o.Type()) {
+							if pt, _ := g.ReachableFromEntry(Cut{Edges: map[Edge]bool{e: true}}, atAnySite(okRets)); pt == nil {
+								errObj = o
+							}
+						}
+					}
+				}
+			}
+		}
+	}
+	if errObj == nil {
+		c.Bad(inst, okRets[0].Pos(), "the successful return is not guarded by the request's error being nil")
+		return
+	}
+	var bad []string
+	n := 0
+	chanOK := func(ch types.Object) bool {
+		// every send on ch, anywhere in the function and its closures, sends the error of a PutObject closure call
+		ok := true
+		sends := 0
+		for _, fx := range append([]*Func{f}, allLits(f)...) {
+			ast.Inspect(fx.Body, func(x ast.Node) bool {
+				if _, isLit := x.(*ast.FuncLit); isLit && x != ast.Node(fx.Lit) {
+					return false
+				}
+				ss, isSend := x.(*ast.SendStmt)
+				if !isSend || objOf(info, ss.Chan) != ch {
+					return true
+				}
+				sends++
+				vo := objOf(info, ss.Value)
+				good := false
+				if vo != nil {
+					for _, d := range fx.Defs(vo) {
+						if d.Rhs != nil && isPutCall(d.Rhs) {
+							good = true
+						} else {
+							good = false
+							break
+						}
+					}
+				}
+				if !good {
+					ok = false
+				}
+				return true
+			})
+		}
+		return ok && sends > 0
+	}
+	for _, d := range f.Defs(errObj) {
+		n++
+		switch {
+		case d.Rhs != nil && isPutCall(d.Rhs):
+		case d.Rhs != nil:
+			if u, ok := ast.Unparen(d.Rhs).(*ast.UnaryExpr); ok && u.Op == token.ARROW && objOf(info, u.X) != nil && chanOK(objOf(info, u.X)) {
+				continue
+			}
+			bad = append(bad, fmt.Sprintf("%s (%s)", exprString(d.Rhs), f.Pos(d.Node)))
+		default:
+			// `case err = <-ch` in a select
+			if cc, ok := d.Node.(*ast.AssignStmt); ok && len(cc.Rhs) == 1 {
+				if u, ok := ast.Unparen(cc.Rhs[0]).(*ast.UnaryExpr); ok && u.Op == token.ARROW && chanOK(objOf(info, u.X)) {
+					continue
+				}
+			}
+			bad = append(bad, f.Pos(d.Node))
+		}
+	}
+	if len(bad) > 0 {
+		c.Bad(inst, okRets[0].Pos(), "the error that decides the upload's outcome can be set to something other than the result of a PutObject request: "+strings.Join(bad, ", ")+" - Upload could report success although no request stored the object")
+		return
+	}
+	c.add(Result{Instance: inst, Verdict: Discharged, Evals: n, Sites: []string{okRets[0].Pos()}, Detail: fmt.Sprintf("the %d definitions of the deciding error are PutObject results (direct or through the hedge channel)", n)})
 }
